@@ -19,7 +19,7 @@ UNITS = {
     'ubjson':     ('ubjson.cpp',     ['jsoncons_ext/ubjson/']),
     'bson':       ('bson.cpp',       ['jsoncons_ext/bson/']),
     'csv':        ('csv.cpp',        ['jsoncons_ext/csv/', 'jsoncons/json_encoders.hpp', 'jsoncons/json_options.hpp']),
-    'toon':       ('toon.cpp',       ['jsoncons_ext/toon/']),
+    'toon':       ('toon.cpp',       ['jsoncons_ext/toon/', 'jsoncons/json_encoders.hpp']),
     'jsonpath':   ('jsonpath.cpp',   ['jsoncons_ext/jsonpath/']),
     'jmespath':   ('jmespath.cpp',   ['jsoncons_ext/jmespath/']),
     'jsonschema': ('jsonschema.cpp', ['jsoncons_ext/jsonschema/']),
